@@ -3,3 +3,7 @@
 
 def c01_part(rep, st, tier):
     pass
+
+
+def c08_part(rep, st, tier):
+    pass
